@@ -381,6 +381,7 @@ fn main() {
         "C08" => drive(&props::hookproto::C08, &a),
         "C10" => drive(&props::adapters::C10, &a),
         "C04" => drive(&props::text::Text(props::text::Which::C04), &a),
+        "C05" => drive(&props::udiff::C05, &a),
         "C13" => drive(&props::text::Text(props::text::Which::C13), &a),
         "C14" => drive(&props::text::Text(props::text::Which::C14), &a),
         "C17" => drive(&props::text::Text(props::text::Which::C17), &a),
